@@ -218,3 +218,38 @@ PROPS["C11"] = {
     "assumptions": ["the operating system's generator returns independent uniformly random bytes on every call"],
     "partial": "data flow proved; freshness of the source is statistical",
 }
+
+_ED_MODELLED = ["curve25519-dalek (Edwards decompression, point addition, scalar multiplication, Scalar reduction) modelled by the RFC 8032 formulas over Z mod 2^255-19 (Spec/Ed25519.v), decompression modelled as dalek behaves (y reduced mod p, sign of x=0 ignored); tied by correspondence only",
+                "SHA-512 is the external sha2 crate (Spec/Sha512.v reference)"]
+
+PROPS["C06"] = {
+    "theorems": [
+        {"name": "C06_strict_S", "status": "proved", "statement": "S >= L -> verify = Err for every message, commitment, key, both modes"},
+        {"name": "C06_sign_S_reduced", "status": "proved", "statement": "the S half of every produced signature is < L"},
+        {"name": "C06_small_order_R_rejected", "status": "proved", "statement": "a small-order commitment is rejected before the equation is evaluated"},
+        {"name": "C06_small_order_key_rejected", "status": "proved", "statement": "a small-order public key is rejected"},
+        {"name": "C06_combined_layout", "status": "proved", "statement": "crypto_sign = signature || message"},
+        {"name": "C06_open_short", "status": "proved", "statement": "signed messages shorter than 64 bytes -> Err"},
+        {"name": "C06_open_of_sign_partial", "status": "partial", "statement": "IF the produced signature verifies (group law: hypothesis) THEN open(sign m) = Ok m"},
+        {"name": "C06_modes_differ", "status": "proved", "statement": "the pre-hashed mode prefixes a 34-byte domain separator, the pure mode none"},
+    ],
+    "builds": ["stable"],
+    "rule": "4 (thorough 12) seeds incl. RFC 8032 test 1, 0, 0xff x every message length 0..=130 (+1 KiB): seed key pair, detached / combined / object / pre-hashed-incremental signatures = libsodium's, verify accepts; every single-bit mutation of message, signature and public key for short messages (decision = libsodium's); "
+            "malleation S + kL for every k keeping S < 2^256; the 8 torsion points and 6 non-canonical encodings as R and as public key with honest and with equation-satisfying forged signatures (R = identity, S = 0; R = B, S = 1 over 16 messages), both modes; mode cross-overs (search); ~15 cases through the extracted Coq RFC 8032 model (correspondence)",
+    "modelled": _ED_MODELLED,
+    "assumptions": ["Edwards group law ([S]B = R + [k]A for honest signatures): not formalised", "rejection of cross-mode signatures rests on SHA-512 collision resistance"],
+    "partial": "strictness, framing, format proved over the model; completeness (honest signatures verify) and equality with libsodium by correspondence / search",
+}
+
+PROPS["C13"] = {
+    "theorems": [
+        {"name": "C13_box_seed_keypair", "status": "proved", "statement": "box seed key pair: sk = SHA-512(seed)[0..32], pk = X25519 base, every seed of any length"},
+        {"name": "C13_sign_seed_keypair_layout", "status": "proved", "statement": "signing secret key = seed || public key"},
+        {"name": "C13_sk_to_curve25519", "status": "proved", "statement": "converted secret key = clamp(SHA-512(seed)[0..32])"},
+    ],
+    "builds": ["stable"],
+    "rule": "box seeds of every length 0..=128 (zero-pattern and PRNG) against SHA-512 + X25519-base computed with libsodium, and libsodium's own crypto_box_seed_keypair at 32 bytes; object KeyPair::from_seed; 48 (thorough 256) 32-byte seeds incl. 0 / 0xff: kx and signing seed key pairs, Ed25519->X25519 conversion of both halves = libsodium's and consistent (pk = base(sk)); public key recomputed from (unclamped) secret keys; password-derived key pair for hash_length 32/64/16/48 against libsodium crypto_pwhash(32)+base (search); ~10 cases through the extracted model (correspondence)",
+    "modelled": _ED_MODELLED + ["X25519 base multiplication as in C05"],
+    "assumptions": ["conversion consistency (birational map is a homomorphism): not formalised, compared with libsodium"],
+    "partial": "constructions are definitional in the model; equality with libsodium by search",
+}
